@@ -100,7 +100,7 @@ def run_case(case, rep, record=True):
                 check_obs(env, scn, out[0], modes, "reset")
                 h.mst = spec.initial()
                 continue
-            if op[0] in ("g", "o"):
+            if op[0] in ("g", "o", "b"):
                 continue
             if op[0] == "f" or op[0] == "r":
                 # what the space's own sampler returns
